@@ -128,4 +128,149 @@ theorem Positional.abs {n : Node} {operand : Str} {cases : List Case} {cats : Li
     have h2 : n.exits[c]? = none := by simp; omega
     rw [h1, h2]; rfl
 
+/-! ### any router whose categories and exits correspond by position -/
+
+structure CatsPos (n : Node) (r : Router) : Prop where
+  router : n.router = some r
+  catsNodup : (r.cats.map (·.uuid)).Nodup
+  exitsNodup : (n.exits.map (·.uuid)).Nodup
+  catExit : r.cats.map (·.exitUuid) = n.exits.map (·.uuid)
+
+theorem CatsPos.catDest {n : Node} {r : Router} (p : CatsPos n r)
+    (c : Nat) (cat : Category) (hc : r.cats[c]? = some cat) :
+    Flow.catDest n r cat.uuid = (n.exits[c]?).bind (·.dest) := by
+  unfold Flow.catDest
+  rw [find?_of_nodup r.cats (·.uuid) p.catsNodup c cat hc]
+  simp only [Option.bind_some]
+  have hlen : c < r.cats.length := (List.getElem?_eq_some_iff.mp hc).1
+  have hel : c < n.exits.length := by
+    have := congrArg List.length p.catExit
+    simp only [List.length_map] at this
+    omega
+  have hex : n.exits[c]? = some n.exits[c] := by simp [hel]
+  have hu : (n.exits[c]).uuid = cat.exitUuid := by
+    have h1 : (r.cats.map (·.exitUuid))[c]? = some cat.exitUuid := by simp [hc]
+    rw [p.catExit] at h1
+    simp only [List.getElem?_map, hex, Option.map_some, Option.some.injEq] at h1
+    exact h1
+  unfold exitDest
+  rw [← hu, find?_of_nodup n.exits (·.uuid) p.exitsNodup c _ hex, hex]
+
+/-- choice `c` selects the category at position `sel c`: the node's abstraction lists the exits at
+those positions -/
+theorem CatsPos.abs {n : Node} {r : Router} (p : CatsPos n r) (sel : Nat → Nat)
+    (hsel : ∀ c, c < routerArity r → ∃ cat, r.cats[sel c]? = some cat ∧ routerChoice r c = some cat.uuid)
+    (lvl : ObsLevel) (f : Flow) :
+    absNode lvl f n =
+      { acts := n.actions.map (·.obs), ask := some (routerObs lvl r),
+        dests := (List.range (routerArity r)).map (fun c => destIdx f ((n.exits[sel c]?).bind (·.dest))) } := by
+  unfold absNode
+  simp only [p.router, Option.map_some]
+  congr 1
+  apply List.map_congr_left
+  intro c hc
+  obtain ⟨cat, h1, h2⟩ := hsel c (List.mem_range.mp hc)
+  rw [h2]
+  simp only [Option.bind_some]
+  rw [p.catDest (sel c) cat h1]
+
+/-- the actions of a node only show in the `acts` component of its abstraction -/
+theorem absNode_acts (lvl : ObsLevel) (f : Flow) (n : Node) (a : List Action) :
+    absNode lvl f { n with actions := a } = { absNode lvl f n with acts := a.map (·.obs) } := rfl
+
+/-- a switch with two categories — one selected by the first case, the other (the default) by all
+further cases and by "none of them": the abstraction lists the first exit once and the second for
+every other choice -/
+theorem absNode_two (lvl : ObsLevel) (f : Flow) (n : Node) (op : Str) (cases : List Case) (c0 c1 : Category)
+    (e0 e1 : Exit) (rn : Option Str) (m : Nat)
+    (hr : n.router = some (.switch op cases [c0, c1] c1.uuid none rn)) (hex : n.exits = [e0, e1])
+    (hc0 : c0.exitUuid = e0.uuid) (hc1 : c1.exitUuid = e1.uuid) (hne : c0.uuid ≠ c1.uuid) (hne' : e0.uuid ≠ e1.uuid)
+    (hcc : cases.map (·.catUuid) = c0.uuid :: List.replicate m c1.uuid) :
+    absNode lvl f n =
+      { acts := n.actions.map (·.obs), ask := some (routerObs lvl (.switch op cases [c0, c1] c1.uuid none rn)),
+        dests := destIdx f e0.dest :: List.replicate (m + 1) (destIdx f e1.dest) } := by
+  have hlen : cases.length = m + 1 := by
+    have := congrArg List.length hcc
+    simpa using this
+  have p : CatsPos n (.switch op cases [c0, c1] c1.uuid none rn) := by
+    refine ⟨hr, ?_, ?_, ?_⟩
+    · simp [Router.cats, hne]
+    · rw [hex]; simp [hne']
+    · rw [hex]; simp [Router.cats, hc0, hc1]
+  have har : routerArity (.switch op cases [c0, c1] c1.uuid none rn) = m + 2 := by
+    simp [routerArity, hlen]
+  have hsel : ∀ c, c < routerArity (.switch op cases [c0, c1] c1.uuid none rn) →
+      ∃ cat, (Router.cats (.switch op cases [c0, c1] c1.uuid none rn))[min c 1]? = some cat ∧
+        routerChoice (.switch op cases [c0, c1] c1.uuid none rn) c = some cat.uuid := by
+    intro c hc
+    rw [har] at hc
+    simp only [Router.cats, routerChoice]
+    by_cases h0 : c = 0
+    · subst h0
+      refine ⟨c0, rfl, ?_⟩
+      have : (cases.map (·.catUuid))[0]? = some c0.uuid := by rw [hcc]; rfl
+      simp only [List.getElem?_map] at this
+      have hpos : 0 < cases.length := by omega
+      simp only [hpos, if_true]
+      exact this
+    · have hmin : min c 1 = 1 := by omega
+      rw [hmin]
+      refine ⟨c1, rfl, ?_⟩
+      by_cases h1 : c < cases.length
+      · simp only [h1, if_true]
+        have : (cases.map (·.catUuid))[c]? = some c1.uuid := by
+          rw [hcc]
+          obtain ⟨c', rfl⟩ : ∃ c', c = c' + 1 := ⟨c - 1, by omega⟩
+          simp only [List.getElem?_cons_succ]
+          rw [List.getElem?_replicate]
+          simp; omega
+        simpa using this
+      · have : c = cases.length := by omega
+        simp [this]
+  rw [p.abs (fun c => min c 1) hsel, har, hex]
+  congr 1
+  rw [List.range_succ_eq_map]
+  simp only [List.map_cons, List.map_map]
+  congr 1
+  apply List.ext_getElem?
+  intro i
+  simp only [List.getElem?_map, List.getElem?_range', List.getElem?_replicate]
+  by_cases hi : i < m + 1
+  · have h1 : (List.range (m + 1))[i]? = some i := by simp [hi]
+    rw [h1]
+    have : min (i + 1) 1 = 1 := by omega
+    simp [hi, this]
+  · have h1 : (List.range (m + 1))[i]? = none := by simp; omega
+    rw [h1]; simp [hi]
+
+/-- a random router whose categories and exits correspond by position: the abstraction lists the
+exits in order -/
+theorem absNode_random (lvl : ObsLevel) (f : Flow) (n : Node) (cats : List Category) (rn : Option Str)
+    (hr : n.router = some (.random cats rn)) (hcn : (cats.map (·.uuid)).Nodup) (hen : (n.exits.map (·.uuid)).Nodup)
+    (hce : cats.map (·.exitUuid) = n.exits.map (·.uuid)) :
+    absNode lvl f n =
+      { acts := n.actions.map (·.obs), ask := some (routerObs lvl (.random cats rn)),
+        dests := n.exits.map (fun e => destIdx f e.dest) } := by
+  have p : CatsPos n (.random cats rn) := ⟨hr, hcn, hen, hce⟩
+  have hlen : cats.length = n.exits.length := by
+    have := congrArg List.length hce; simpa using this
+  have hsel : ∀ c, c < routerArity (.random cats rn) →
+      ∃ cat, (Router.cats (.random cats rn))[c]? = some cat ∧ routerChoice (.random cats rn) c = some cat.uuid := by
+    intro c hc
+    simp only [routerArity] at hc
+    refine ⟨cats[c], by simp [Router.cats, hc], by simp [routerChoice, hc]⟩
+  rw [p.abs (fun c => c) hsel]
+  congr 1
+  simp only [routerArity]
+  apply List.ext_getElem?
+  intro i
+  simp only [List.getElem?_map, List.getElem?_range']
+  by_cases hi : i < cats.length
+  · have h1 : (List.range cats.length)[i]? = some i := by simp [hi]
+    have h2 : i < n.exits.length := by omega
+    rw [h1]; simp [h2]
+  · have h1 : (List.range cats.length)[i]? = none := by simp; omega
+    have h2 : n.exits[i]? = none := by simp; omega
+    rw [h1, h2]; rfl
+
 end Rpft.Flow
